@@ -2,6 +2,7 @@
 import z3
 from z3 import And, Function, Int, IntSort, Real, RealSort
 
+from ..contracts.loss_moments import LossEval
 from ..contracts.moments_matrix import Bound, Gamma, UMatrixLoop
 from ..pyvc import solve, verify
 
@@ -37,4 +38,7 @@ def items(rep):
                              ("group_term_normalised_by_event_probability", verify.replace_expr("self.prob_group_event[e, g]", "self.prob_event[e]", 1))]),
             (Gamma(), [("sign_dropped", verify.replace_expr("-self.U.T.dot(pred) / self.total_samples", "self.U.T.dot(pred) / self.total_samples")),
                        ("base_utility_from_the_wrong_column", verify.replace_expr("self.utilities[:, 0]", "self.utilities[:, 1]"))]),
-            (Bound(), [])]
+            (Bound(), []),
+            (LossEval("SquareLoss"), [("prediction_not_clipped", verify.replace_expr("np.clip(y_pred, self.min_val, self.max_val)", "y_pred"))]),
+            (LossEval("AbsoluteLoss"), [("signed_difference", verify.replace_expr("np.abs(np.clip(y_true, self.min_val, self.max_val) - np.clip(y_pred, self.min_val, self.max_val))",
+                                                                                  "np.clip(y_true, self.min_val, self.max_val) - np.clip(y_pred, self.min_val, self.max_val)"))])]
